@@ -20,8 +20,8 @@ CHECKS = {
               'predicate; +n then -n returns to a business-day start, proved for the generic loop and instantiated for the '
               'model of the code (every calendar, valid start, n; datetime steps forward/backward are inverse). Tie: models regenerated from the source on every run + exhaustive '
               'correspondence implementation = model = spec over 15 calendars x every date 1901-2199.'),
-        note=BASE_NOTE + 'Rule lists are a reading of the named rules in calendar.py; termination of the adjust walk is '
-             'validated exhaustively, not proved.',
+        note=BASE_NOTE + 'Rule lists are a reading of the named rules in calendar.py; termination of the adjust walk is proved '
+             'for the WEEKEND calendar (three evaluations suffice, Props/C14e) and validated exhaustively for the others.',
         technique='Lean 4 theorems on a model regenerated from the source (py2lean) + exhaustive model/implementation/spec correspondence',
         design='§5 C14'),
 }
